@@ -25,16 +25,13 @@ func c20InodeCsum(b []byte, seed, ino uint32) uint32 {
 	return crc.CRC32c(c, b)
 }
 
-// c20SealInode restricts the (symbolic) inode image to those whose stored checksum
-// (i_checksum_lo at 0x7c, i_checksum_hi at 0x82) is the valid one.
+// c20SealInode stores the valid checksum (i_checksum_lo at 0x7c, i_checksum_hi at 0x82) into the
+// (symbolic) inode image.
 func c20SealInode(b []byte, seed, ino uint32) {
-	z := make([]byte, len(b))
-	copy(z, b)
-	z[0x7c], z[0x7d], z[0x82], z[0x83] = 0, 0, 0, 0
-	var st [4]byte
-	copy(st[0:2], b[0x7c:0x7e])
-	copy(st[2:4], b[0x82:0x84])
-	vp.Assume(binary.LittleEndian.Uint32(st[:]) == c20InodeCsum(z, seed, ino))
+	b[0x7c], b[0x7d], b[0x82], b[0x83] = 0, 0, 0, 0
+	c := c20InodeCsum(b, seed, ino)
+	b[0x7c], b[0x7d] = byte(c), byte(c>>8)
+	b[0x82], b[0x83] = byte(c>>16), byte(c>>24)
 }
 
 func c20SB(inodeSize uint16, blockSize uint32, huge bool) *superblock {
@@ -85,4 +82,167 @@ func VP_C20_inode_fields() {
 	vp.Assert(st.UID == in.owner, "StatT.UID")
 	vp.Assert(st.GID == in.group, "StatT.GID")
 	vp.Assert(st.Nlink == in.hardLinks, "StatT.Nlink")
+	vp.Assert(st.Ino == ino, "StatT.Ino")
+}
+
+// c20RefTime: i_xtime (signed 32 bit) widened by the two epoch bits of i_xtime_extra; nanoseconds in the
+// upper 30 bits (layout documentation, "Inode Timestamps").
+func c20RefTime(b []byte, lo, extra int) (sec int64, nsec int64) {
+	e := c20le32(b, extra)
+	return int64(int32(c20le32(b, lo))) + int64(e&3)<<32, int64(e >> 2)
+}
+
+// VP_C20_inode_times: a 256-byte inode as mke2fs writes it (i_extra_isize = 32, nanoseconds < 1e9),
+// every other byte arbitrary: atime/ctime/mtime/crtime are the 34-bit seconds + nanoseconds on disk.
+func VP_C20_inode_times() {
+	b := vp.Bytes("inode", 256)
+	ino := vp.U32("ino")
+	sb := c20SB(256, 4096, false)
+	vp.Assume(b[0x22]&0x08 == 0)
+	vp.Assume(b[1]&0xf0 != 0xa0)
+	vp.Assume(c20le16(b, 0x80) == 32)
+	for _, o := range []int{0x84, 0x88, 0x8c, 0x94} {
+		vp.Assume(c20le32(b, o)>>2 < 1000000000)
+	}
+	c20SealInode(b, sb.checksumSeed, ino)
+	ref := make([]byte, 256)
+	copy(ref, b)
+	in, err := inodeFromBytes(b, sb, ino)
+	vp.Assert(err == nil, "an inode with a valid checksum decodes")
+	if err != nil {
+		return
+	}
+	s, n := c20RefTime(ref, 0x10, 0x88)
+	vp.Assert(in.modifyTime.Unix() == s, "mtime seconds = int32(i_mtime) + (i_mtime_extra&3)<<32")
+	vp.Assert(int64(in.modifyTime.Nanosecond()) == n, "mtime nanoseconds = i_mtime_extra>>2")
+	s, n = c20RefTime(ref, 0x8, 0x8c)
+	vp.Assert(in.accessTime.Unix() == s, "atime seconds")
+	vp.Assert(int64(in.accessTime.Nanosecond()) == n, "atime nanoseconds")
+	s, n = c20RefTime(ref, 0xc, 0x84)
+	vp.Assert(in.changeTime.Unix() == s, "ctime seconds")
+	vp.Assert(int64(in.changeTime.Nanosecond()) == n, "ctime nanoseconds")
+	s, n = c20RefTime(ref, 0x90, 0x94)
+	vp.Assert(in.createTime.Unix() == s, "crtime seconds")
+	vp.Assert(int64(in.createTime.Nanosecond()) == n, "crtime nanoseconds")
+	stt := in.stat()
+	vp.Assert(stt.AccessTime.Unix() == in.accessTime.Unix(), "StatT.AccessTime")
+	vp.Assert(stt.ChangeTime.Unix() == in.changeTime.Unix(), "StatT.ChangeTime")
+	vp.Cover("times decoded")
+}
+
+// VP_C20_inode_fast_symlink: symlink with 1 <= i_size < 60: the target is the first i_size bytes of i_block.
+func VP_C20_inode_fast_symlink() {
+	b := vp.Bytes("inode", 256)
+	ino := vp.U32("ino")
+	sb := c20SB(256, 1024, false)
+	vp.Assume(b[1]&0xf0 == 0xa0)
+	size := c20le32(b, 4)
+	vp.Assume(size >= 1)
+	vp.Assume(size < 60)
+	vp.Assume(c20le32(b, 0x6c) == 0)
+	vp.Assume(b[0x22]&0x08 == 0) // fast symlinks carry no extent tree
+	c20SealInode(b, sb.checksumSeed, ino)
+	ref := make([]byte, 256)
+	copy(ref, b)
+	in, err := inodeFromBytes(b, sb, ino)
+	vp.Assert(err == nil, "a fast symlink inode decodes")
+	if err != nil {
+		return
+	}
+	vp.Assert(in.fileType == fileTypeSymbolicLink, "type symlink")
+	vp.Assert(len(in.linkTarget) == int(size), "target length = i_size")
+	for j := 0; j < 59; j++ {
+		if j < int(size) && j < len(in.linkTarget) {
+			vp.Assert(in.linkTarget[j] == ref[0x28+j], "target bytes = i_block bytes")
+		}
+	}
+	vp.Assert(in.stat().LinkTarget == in.linkTarget, "StatT.LinkTarget")
+	vp.Assert(in.permissionsToMode()&os.ModeSymlink != 0, "mode says symlink")
+	vp.Cover("fast symlink decoded")
+}
+
+// VP_C20_inode_extent_root: an extent-mapped inode (EXT4_EXTENTS_FL) whose i_block holds a depth-0 root
+// with n=0..4 extents: the inode's extent list is the on-disk one.
+func VP_C20_inode_extent_root() {
+	for n := 0; n <= 4; n++ {
+		b := vp.Bytes("inode", 256)
+		ino := vp.U32("ino")
+		sb := c20SB(256, 1024, vp.Bool("hugefile"))
+		vp.Assume(b[0x22]&0x08 != 0)
+		vp.Assume(b[1]&0xf0 == 0x80) // regular file
+		c20SetHeader(b[0x28:0x64], uint16(n), 4, 0)
+		c20SealInode(b, sb.checksumSeed, ino)
+		ref := make([]byte, 256)
+		copy(ref, b)
+		in, err := inodeFromBytes(b, sb, ino)
+		vp.Assert(err == nil, "an extent-mapped inode decodes")
+		if err != nil {
+			return
+		}
+		vp.Assert(in.extents != nil, "extent-mapped inode has an extent tree")
+		if in.extents == nil {
+			return
+		}
+		got, err := in.extents.blocks(nil)
+		vp.Assert(err == nil, "leaf root needs no device")
+		vp.Assert(len(got) == n, "as many extents as eh_entries")
+		for i := 0; i < n && i < len(got); i++ {
+			fb, ln, st := c20RefLeaf(ref[0x28:0x64], i)
+			vp.Assert(got[i].fileBlock == fb, "inode root: ee_block")
+			vp.Assert(got[i].count == ln, "inode root: ee_len")
+			vp.Assert(got[i].startingBlock == st, "inode root: ee_start")
+		}
+	}
+	vp.Cover("extent roots in the inode decoded")
+}
+
+// VP_C20_inode_128: good-old 128-byte inodes (mke2fs -I 128): either refused, or decoded with the
+// 128-byte layout (no extra fields, 32-bit signed seconds).
+func VP_C20_inode_128() {
+	b := vp.Bytes("inode", 128)
+	ino := vp.U32("ino")
+	sb := c20SB(128, 1024, false)
+	vp.Assume(b[0x22]&0x08 == 0)
+	vp.Assume(b[1]&0xf0 != 0xa0)
+	ref := make([]byte, 128)
+	copy(ref, b)
+	vp.NoPanic()
+	in, err := inodeFromBytes(b, sb, ino)
+	vp.AllowPanic()
+	if err != nil {
+		vp.Cover("128-byte inode refused")
+		return
+	}
+	vp.Assert(in.modifyTime.Unix() == int64(int32(c20le32(ref, 0x10))), "128-byte inode: mtime = signed i_mtime")
+	vp.Assert(in.size == uint64(c20le32(ref, 4))|uint64(c20le32(ref, 0x6c))<<32, "128-byte inode: size")
+	vp.Cover("128-byte inode decoded")
+}
+
+// VP_C20_readdir_info_mode: ReadDir's entries (directoryEntryInfo) report through Info() the inode's
+// size, times and full mode (type and permission bits), like Stat does.
+func VP_C20_readdir_info_mode() {
+	b := vp.Bytes("inode", 256)
+	ino := vp.U32("ino")
+	sb := c20SB(256, 4096, false)
+	vp.Assume(b[0x22]&0x08 == 0)
+	vp.Assume(b[1]&0xf0 == 0x80) // a regular file
+	c20SealInode(b, sb.checksumSeed, ino)
+	mode := c20le16(b, 0)
+	in, err := inodeFromBytes(b, sb, ino)
+	if err != nil {
+		vp.Assert(false, "inode decodes")
+		return
+	}
+	de := &directoryEntryInfo{inode: in, directoryEntry: &directoryEntry{inode: ino, filename: "f", fileType: dirFileTypeRegular}}
+	fi, err := de.Info()
+	vp.Assert(err == nil, "Info() succeeds")
+	if err != nil {
+		return
+	}
+	vp.Assert(fi.Size() == int64(in.size), "Info().Size() = i_size")
+	vp.Assert(fi.ModTime().Unix() == in.modifyTime.Unix(), "Info().ModTime() = mtime")
+	vp.Assert(!fi.IsDir(), "regular file is not a directory")
+	vp.Assert(fi.Mode()&os.ModeType == 0, "Info().Mode() type bits of a regular file")
+	vp.AssertUnless("KF-C20-3", mode&0o777 != 0, uint16(fi.Mode().Perm()) == mode&0o777, "Info().Mode() carries the permission bits of i_mode")
+	vp.Cover("ReadDir entry info")
 }
